@@ -1130,6 +1130,9 @@ fn universe(thorough: bool) -> Vec<(usize, Vec<usize>, Vec<usize>, bool)> {
                 out.push((n, bits, all_levels(k), false));
             }
         }
+        // one long chain in the quick tier too (19 data primes + special prime, the four top levels): composed
+        // coefficients of 17+ words are where a multi-word decode can overflow a double (seeded change C12-B)
+        out.push((4, vec![30; 20], vec![20, 19, 18, 17], false));
         return out;
     }
     for n in [2usize, 4, 8, 16, 32] {
